@@ -97,7 +97,7 @@ fn case_direct(t: &mut Tape, ctx: &CaseCtx) -> CaseResult {
     let apps: Vec<App> = (0..napps).map(|i| App::builder().id(format!("{}{i}", header_safe(t, 6))).version([1 + t.choose(9) as u32, t.u32_biased()]).build()).collect();
     let kind = t.choose(3);
     let params = RequestParams { source: if t.flag() { InstallSource::OnDemand } else { InstallSource::ScheduledTask }, ..Default::default() };
-    let case = json!({"service_url": url.text, "keys(id,pool)": keys, "apps": napps, "kind": ["update check", "ping", "event"][kind]});
+    let case = json!({"service_url": url.text, "keys(id,pool)": keys, "apps": napps, "kind": (["update check", "ping", "event"][kind])});
     if url.text.parse::<http::Uri>().is_err() {
         return Ok(CaseReport { key: hash_of(&url.text), classes: vec!["uri_rejected_by_http_crate"], ..Default::default() });
     }
